@@ -60,6 +60,11 @@ pub struct Case {
     /// the generated configuration is called Monorail.dev.json (lockfile Monorail.dev.lock)
     #[serde(default)]
     pub dotted_name: bool,
+    /// `generate` and every later invocation are made from the directory above the repository
+    /// (`-f <abs>/repo/Monorail.json`, `source.path` = `repo/Monorail.src.json`, relative to that
+    /// directory as `generate` reads it)
+    #[serde(default)]
+    pub outer_cwd: bool,
 }
 
 /// What the source file holds. `config generate` only reads the configuration from stdin; the
@@ -119,8 +124,8 @@ pub fn strategy() -> impl Strategy<Value = Case> {
         }
         c
     });
-    (prop_oneof![1 => small, 2 => big], vec(tamper(), 4..10), 0u8..=1, proptest::bool::weighted(0.3))
-        .prop_map(|(config, tampers, source_kind, dotted_name)| Case { config, tampers, source_kind, dotted_name })
+    (prop_oneof![1 => small, 2 => big], vec(tamper(), 4..10), 0u8..=1, proptest::bool::weighted(0.3), proptest::bool::weighted(0.25))
+        .prop_map(|(config, tampers, source_kind, dotted_name, outer_cwd)| Case { config, tampers, source_kind, dotted_name, outer_cwd })
 }
 
 fn apply(orig: &[u8], t: &Tamper) -> Option<Vec<u8>> {
@@ -224,6 +229,12 @@ pub fn check(case: &Case, w: usize) -> CheckResult {
     };
     let mut cfg = case.config.clone();
     cfg.source_path = Some("Monorail.src.json".into());
+    if case.outer_cwd {
+        env.cwd_override = Some(env.case_dir.clone());
+        cfg.source_path = Some("repo/Monorail.src.json".into());
+    }
+    // (`out delete` resolves the output directory against the current directory: not used from outside)
+    let usable = |i: usize| !(case.outer_cwd && (i == 8 || i == 12));
     env.install_config(&cfg);
     // source file: the configuration itself (pretty), generated file: written by monorail
     let src_bytes = env.with_ports(&cfg).to_json().into_bytes();
@@ -247,6 +258,7 @@ pub fn check(case: &Case, w: usize) -> CheckResult {
     let some: BTreeMap<_, _> = beh.into_iter().take(3).collect();
     bb::install_simple(&env, &cfg, &some);
     let ntargets_with_cmd = some.len();
+    let over = env.cwd_override.take();
     if let Err(e) = env.git_init() {
         return inconclusive(e);
     }
@@ -254,7 +266,12 @@ pub fn check(case: &Case, w: usize) -> CheckResult {
     if let Err(e) = env.git_ok(&["add", "-A"]).and_then(|_| env.git_ok(&["commit", "-q", "-m", "init"])) {
         return inconclusive(e);
     }
+    env.cwd_override = over;
     let g = env.mr_stdin(&["config", "generate"], &src_bytes);
+    if !g.ok() && case.outer_cwd {
+        // which directory a relative `source.path` refers to is `generate`'s to decide
+        return inconclusive(format!("config generate from the directory above the repository failed: {}", g.brief()));
+    }
     if !g.ok() {
         return viol_obs("c17.generate.failed", "config generate rejected a valid source configuration".into(), g.brief());
     }
@@ -269,7 +286,7 @@ pub fn check(case: &Case, w: usize) -> CheckResult {
     // untouched: everything works (state is built up in an order that makes every API meaningful)
     let order = [0usize, 1, 2, 3, 5, 2, 4, 9, 5, 6, 7, 10, 11, 8, 12, 3, 5];
     let mut seen_update = false;
-    for &i in &order {
+    for &i in order.iter().filter(|&&i| usable(i)) {
         env.clear_traces();
         let o = invoke(&mut env, i);
         if !o.ok() {
@@ -291,6 +308,7 @@ pub fn check(case: &Case, w: usize) -> CheckResult {
         }
     }
     let render_path = env.path("c17-graph.dot");
+    let render_path_outer = env.case_dir.join("c17-graph.dot");
     let out_dir = env.path("monorail-out");
     let mut info = CaseInfo::new(false);
     let mut nontrivial = false;
@@ -333,17 +351,22 @@ pub fn check(case: &Case, w: usize) -> CheckResult {
                 .unwrap_or_default()
         };
         let _ = std::fs::remove_file(&render_path);
+        let _ = std::fs::remove_file(&render_path_outer);
         let snap = (out_dir.exists(), top_level(&env), bb::snapshot_dir(&out_dir));
         // two APIs per tamper, rotating through all of them
         for k in 0..2 {
-            let api = &APIS[(ti * 2 + k + case.tampers.len()) % APIS.len()];
+            let mut api_index = (ti * 2 + k + case.tampers.len()) % APIS.len();
+            if !usable(api_index) {
+                api_index = (api_index + 1) % APIS.len();
+            }
+            let api = &APIS[api_index];
             env.clear_traces();
             let _ = std::fs::remove_file(&render_path);
-            let api_index = (ti * 2 + k + case.tampers.len()) % APIS.len();
+            let _ = std::fs::remove_file(&render_path_outer);
             let o = invoke(&mut env, api_index);
             let started = env.traces().len();
             let snap2 = (out_dir.exists(), top_level(&env), bb::snapshot_dir(&out_dir));
-            if render_path.exists() {
+            if render_path.exists() || render_path_outer.exists() {
                 std::fs::write(&path, orig).ok();
                 return viol("c17.tampered.action", format!("`{}` wrote its output file after tamper {:?} {:?} {:?}", api.args.join(" "), t.file, t.kind, t.offset));
             }
@@ -401,6 +424,7 @@ pub fn check(case: &Case, w: usize) -> CheckResult {
                 Kind::TruncateTail(_) => "truncate-tail",
             })
             .class_if(t.keep_mtime, "mtime-preserved")
+            .class_if(case.outer_cwd, "invoked-from-the-directory-above-the-repository")
             .class(if off < 8192 { "offset<8192" } else if off < 16384 { "offset<16384" } else { "offset>=16384" });
     }
     // generating again from the same source repairs a damaged generated file: afterwards the three
@@ -470,8 +494,169 @@ pub fn exhaustive_cases() -> Vec<Case> {
             tampers: c.to_vec(),
             source_kind: 1,
             dotted_name: false,
+            outer_cwd: false,
         })
         .collect()
+}
+
+// ---------------------------------------------------------------------------
+// in-process sweep: the loading step (`Config::new` + `check`, hook `verif::config_load`) over
+// every single-byte edit - all 255 masks - and every truncation of the three files
+
+#[derive(Debug, Clone, Serialize, Deserialize)]
+pub struct SweepCase {
+    /// number of targets of the source configuration (c18::big_config), 0 = the small two-target one
+    pub targets: usize,
+    pub file: FileSel,
+    /// offsets [from, to) of the file are edited (clipped to its length)
+    pub from: usize,
+    pub to: usize,
+    /// every mask 1..=255 (true) or the masks 0x01, 0x20, 0x80 only
+    pub all_masks: bool,
+}
+
+fn lock_checksum_of(bytes: &[u8]) -> Option<String> {
+    serde_json::from_slice::<Value>(bytes)
+        .ok()
+        .and_then(|v| v.get("checksum").and_then(|c| c.as_str()).map(String::from))
+}
+
+/// The process-wide current directory for the in-process form: `Config::check` resolves
+/// `source.path` against it, exactly as `config generate` (run from the same directory) did.
+pub fn enter_scratch_root() {
+    let _ = std::env::set_current_dir(crate::scratch::fast_root());
+}
+
+pub fn check_sweep(case: &SweepCase, w: usize) -> CheckResult {
+    enter_scratch_root();
+    let mut env = Env::new_in(crate::scratch::fast_root(), w);
+    env.cwd_override = Some(crate::scratch::fast_root().to_path_buf());
+    let rel_repo = env
+        .repo
+        .strip_prefix(crate::scratch::fast_root())
+        .map_err(|e| Inconclusive(e.to_string()))?
+        .to_string_lossy()
+        .to_string();
+    let mut cfg = if case.targets == 0 {
+        let mut a = crate::model::TargetSpec::new("a");
+        a.uses = vec!["lib/f".into()];
+        ConfigSpec {
+            targets: vec![a, crate::model::TargetSpec::new("lib")],
+            ..Default::default()
+        }
+    } else {
+        c18::big_config(case.targets, &[7, 77, 777, 7777, 3, 33, 333, 3333, 5, 55, 555, 5555, 1, 11, 111, 1111])
+    };
+    cfg.source_path = Some(format!("{}/Monorail.src.json", rel_repo));
+    let src_bytes = env.with_ports(&cfg).to_json().into_bytes();
+    let src_file = source_file_bytes(1, &src_bytes);
+    std::fs::create_dir_all(&env.repo).map_err(|e| Inconclusive(e.to_string()))?;
+    env.write_file("Monorail.src.json", &src_file);
+    let g = env.mr_stdin(&["config", "generate"], &src_bytes);
+    if !g.ok() {
+        return inconclusive(format!("config generate (from the scratch root) failed: {}", g.brief()));
+    }
+    let gen_path = env.config_path();
+    let lock_path = env.path("Monorail.lock");
+    let (Ok(gen_bytes), Ok(lock_bytes)) = (std::fs::read(&gen_path), std::fs::read(&lock_path)) else {
+        return viol("c17.generate.files", "config generate did not write the generated file and the lockfile".into());
+    };
+    if let Err(e) = monorail::verif::config_load(&gen_path) {
+        return viol_obs(
+            "c17.inproc.untouched.rejected",
+            format!("loading fails although source, generated file ({} bytes) and lockfile are untouched", gen_bytes.len()),
+            json!({"error": e}),
+        );
+    }
+    let lock_checksum = lock_checksum_of(&lock_bytes);
+    let (path, orig) = match case.file {
+        FileSel::Source => (env.path("Monorail.src.json"), &src_file),
+        FileSel::Generated => (gen_path.clone(), &gen_bytes),
+        FileSel::Lock => (lock_path.clone(), &lock_bytes),
+    };
+    let masks: Vec<u8> = if case.all_masks { (1u8..=255).collect() } else { vec![0x01, 0x20, 0x80] };
+    let mut judged = 0u64;
+    let mut skipped_lock = 0u64;
+    let to = case.to.min(orig.len());
+    let mut try_one = |new: &[u8], what: String| -> Result<(), CheckError> {
+        if case.file == FileSel::Lock {
+            let parsed = lock_checksum_of(new);
+            if parsed.is_some() && parsed == lock_checksum {
+                skipped_lock += 1;
+                return Ok(());
+            }
+        }
+        std::fs::write(&path, new).map_err(|e| Inconclusive(e.to_string()))?;
+        let r = monorail::verif::config_load(&gen_path);
+        judged += 1;
+        if r.is_ok() {
+            let _ = std::fs::write(&path, orig);
+            let sig = match case.file {
+                FileSel::Generated => "c17.inproc.tampered.accepted.generated",
+                FileSel::Source => "c17.inproc.tampered.accepted.source",
+                FileSel::Lock => "c17.inproc.tampered.accepted.lock",
+            };
+            return viol(sig, format!("loading succeeds after {} of the {:?} file (length {})", what, case.file, orig.len()));
+        }
+        Ok(())
+    };
+    for o in case.from..to {
+        for m in &masks {
+            let mut v = orig.clone();
+            v[o] ^= m;
+            try_one(&v, format!("XOR {:#04x} at offset {}", m, o))?;
+        }
+        try_one(&orig[..o], format!("truncation to {} bytes", o))?;
+        // one byte inserted / removed at this offset
+        let mut ins = orig[..o].to_vec();
+        ins.push(b' ');
+        ins.extend_from_slice(&orig[o..]);
+        try_one(&ins, format!("insertion of a blank at offset {}", o))?;
+        let mut del = orig[..o].to_vec();
+        del.extend_from_slice(&orig[o + 1..]);
+        try_one(&del, format!("removal of the byte at offset {}", o))?;
+    }
+    std::fs::write(&path, orig).map_err(|e| Inconclusive(e.to_string()))?;
+    // and afterwards the untouched triple loads again
+    if let Err(e) = monorail::verif::config_load(&gen_path) {
+        return viol_obs("c17.inproc.untouched.rejected", "loading fails after the original bytes were put back".into(), json!({"error": e}));
+    }
+    let mut info = CaseInfo::new(case.file != FileSel::Generated || to > 8192)
+        .class(&format!("sweep-{:?}", case.file))
+        .class(if orig.len() > 16384 { "file>16KiB" } else if orig.len() > 8192 { "file>8KiB" } else { "file<=8KiB" })
+        .class_if(skipped_lock > 0, "lockfile-checksum-intact(not judged)")
+        .inv(env.invocations);
+    info.weight = judged;
+    Ok(info)
+}
+
+/// Sweep cases: the whole of the small triple under all 255 masks; of a large triple (generated
+/// file of several 8 KiB buffers) every offset under three masks and the offsets around buffer
+/// boundaries under all masks.
+pub fn sweep_cases(thorough: bool) -> Vec<SweepCase> {
+    let mut v = vec![];
+    for (file, len) in [(FileSel::Source, 700usize), (FileSel::Generated, 900), (FileSel::Lock, 120)] {
+        let mut o = 0;
+        while o < len {
+            v.push(SweepCase { targets: 0, file, from: o, to: o + 16, all_masks: true });
+            o += 16;
+        }
+    }
+    let big = if thorough { vec![40usize, 120, 300] } else { vec![120usize] };
+    for n in big {
+        for file in [FileSel::Source, FileSel::Generated] {
+            let len = if thorough { 80_000 } else { 24_000 };
+            let mut o = 0;
+            while o < len {
+                v.push(SweepCase { targets: n, file, from: o, to: o + 256, all_masks: false });
+                o += 256;
+            }
+            for b in [4096usize, 8192, 16384, 32768, 65536] {
+                v.push(SweepCase { targets: n, file, from: b - 4, to: b + 4, all_masks: true });
+            }
+        }
+    }
+    v
 }
 
 pub fn run(ctx: &mut Ctx) {
@@ -482,12 +667,24 @@ non-zero exit, error JSON on stderr, no helper started, out dir byte-identical (
 non-trivial = tamper offset >= 8192, or tamper in source/lockfile; distinct by SHA-256"
         .to_string();
     ctx.assumptions = vec!["APIs: config show, target show -g, analyze, run, checkpoint show/update/delete, result show, log show, out delete (with and without --all), target render, log tail (accepted = listening on the log port)".into()];
+    ctx.drive_all(
+        "inproc-sweep",
+        sweep_cases(ctx.thorough()),
+        "in-process loading (Config::new + check) after every single-byte XOR (all 255 masks), truncation, one-byte insertion and removal at every offset of source, generated file and lockfile of a small configuration; for a large configuration every offset of source and generated file under three masks, and all masks within 4 bytes of 4/8/16/32/64 KiB",
+        check_sweep,
+    );
     ctx.drive_all("exhaustive-small", exhaustive_cases(), "one XOR edit (mask 0x01 or 0x20) at every byte offset of source, generated file and lockfile of one small configuration", check);
     let n = ctx.n(60, 1500);
     ctx.drive("sampled", strategy, n, check);
 }
 
 pub fn replay(ctx: &Ctx, label: &str, case: Value) -> Result<(), String> {
+    if label.contains("inproc-sweep") {
+        let c: SweepCase = serde_json::from_value(case).map_err(|e| e.to_string())?;
+        let r = check_sweep(&c, 0);
+        ctx.replay_one(label, &c, r);
+        return Ok(());
+    }
     let c: Case = serde_json::from_value(case).map_err(|e| e.to_string())?;
     let r = check(&c, 0);
     ctx.replay_one(label, &c, r);
